@@ -15,6 +15,7 @@ import LccModel.Lemmas.SessionIso
 import LccModel.Lemmas.WriterIso
 import LccModel.Lemmas.ThreadsAttach
 import LccModel.Lemmas.SessionAttach
+import LccModel.Lemmas.SessionSetStep
 
 namespace LccModel.C06
 open LccModel.Report LccModel.Session LccModel.Writer LccModel.SessionIso LccModel.WriterIso
@@ -236,6 +237,44 @@ example :
        | .error _ => none
      | .error _ => none)
     = some ([("A", ["a1", "a2"]), ("A", ["a-thread"])], [("B", ["b1", "b2"]), ("B2", ["b3"])]) := by
+  decide
+
+/-! ## (c') step changes: EVERY `set_step` opens a new step
+
+  "… inside the step that was current in the emitting thread … all step changes": a step change to a step
+  with the SAME description as the current one (`lcc.set_step("poll device")` inside a loop) is a step
+  change like any other.  `log_lands_in_own_step` says a record lands in the step created by the latest
+  `StepStart` of its thread; the theorem below says that a `set_step(d)` call always puts a NEW
+  `StepStart(loc, d, thread)` between whatever the thread recorded before and its next record — for every
+  state (any step current, `d` itself included), every thread and every kind of record. -/
+
+/-- **Every `set_step` opens a new step**: after `set_step(d)`, the next record of the thread (log, check,
+    url, attachment — one call or the exit of a `with prepare_attachment` block) is immediately preceded in
+    the stream by a `StepStart(loc, d, thread)` that was fired after everything the stream held before the
+    `set_step` call; the record names step `d` at the thread's location.  No hypothesis on the step that was
+    current before. -/
+theorem set_step_always_opens_a_new_step {s s1 s2 : St} {tid : Nat} {d : String} {op : Op}
+    (hop : isRecord op = true) (h1 : step s tid (.setStep d) = .ok s1) (h2 : step s1 tid op = .ok s2) :
+    ∃ c pre t e, getCursor s tid = some c ∧ s2.fired = s.fired ++ pre ++ [.stepStart c.loc d tid t, e] ∧
+      logLike e = true ∧ evTid e = some tid ∧ evLoc e = some c.loc ∧ evStep e = some d :=
+  record_after_setStep hop h1 h2
+
+/-- non-vacuity (a polling loop): the same description set three times, a record after each call, also from an
+    `lcc.Thread` — three steps named "poll" with one record each in the test thread, two in the `lcc.Thread`
+    (its default step is the creator's current description: "poll" as well) -/
+example :
+    (match runOps St.init
+        [(1, .startTestSession), (1, .startSuite ["s"] (demoMd "s" 0)), (1, .startTest ["s", "a"] (demoMd "a" 0)),
+         (1, .setStep "poll"), (1, .log .info "r1"), (1, .setStep "poll"), (1, .log .info "r2"),
+         (1, .threadCreate 10), (10, .threadRun), (10, .log .info "t1"), (10, .setStep "poll"), (10, .log .info "t2"),
+         (10, .threadEnd), (1, .setStep "poll"), (1, .attach "f" "r3" false),
+         (1, .endTest ["s", "a"]), (1, .endSuite ["s"]), (1, .endTestSession)] with
+     | .ok s =>
+       match Writer.run Writer.initState s.fired with
+       | .ok w => some (stepsView (getSteps (.test ["s", "a"]) w.report))
+       | .error _ => none
+     | .error _ => none)
+    = some [("poll", ["r1"]), ("poll", ["r2"]), ("poll", ["t1"]), ("poll", ["t2"]), ("poll", ["r3"])] := by
   decide
 
 /-! ## (d) which attachments the stream references (M3): only blocks that were left normally
